@@ -2,6 +2,9 @@
 
 _AMMO = {"quick": 3000, "thorough": 120000, "shards_quick": 2, "shards_thorough": 16, "timeout": 2400, "mem_gb": 4}
 
+# first bytes of the structural garbage class (added after seeded defect C13/m5)
+_FIRST = ["close_bracket", "close_brace", "comma", "colon", "open_bracket", "open_brace", "quote"]
+
 SPEC = {
     "pkg": "c13",
     "tests": [
@@ -36,7 +39,11 @@ SPEC = {
              "-1 / 0 / 2^30 / 99999999999 / 2^63 ..., duplicate / drop / swap lines, CRLF, set a byte, drop the final newline, insert a 70 KB "
              "line, repeat the file), or a hostile constant, or random bytes, or an unmodified valid file; preload on/off (continueonerror "
              "on/off for grpc/json), limit in {0,1,2,5,12}, passes in {0,1,2}; one case in four is metamorphic: a valid file V, then garbage G "
-             "on a fresh line (G known-malformed for the format in two of three). F6: scengen descriptions (YAML and HCL) with 1-2 "
+             "on a fresh line (G known-malformed for the format in two of three; for the two JSON formats half of the known-malformed G begin "
+             "with a JSON structural character - each of ] } , : [ { and the quote in turn, followed by one of 5-10 tails incl. nothing, the "
+             "same character again, a complete valid entry, a second array - which can never continue a well-formed file; for http/json such a "
+             "case is, one time in three, written as one top-level array, and in half of the cases G follows the last valid value after "
+             "no whitespace, a space, a tab, a newline, CRLF or blank lines instead of on a fresh line). F6: scengen descriptions (YAML and HCL) with 1-2 "
              "structured mutations out of 27 (leading / only sleep(), sleep() behind 1-3 steps name(c) with c <= 0 that build no request - in "
              "front of the list, in place of it or in front of its tail -, zero / negative multiplicities on all steps, on the steps in "
              "front of the first sleep() or on one step, 20 bad step strings, unknown request, no scenarios, no step "
@@ -53,6 +60,11 @@ SPEC = {
         "TestF4HTTPJSON/rejected_after_delivering": 0.03, "TestF5GrpcJSON/rejected_after_delivering": 0.03,
         "TestF1Uri/meta_must_reject": 0.1, "TestF2Uripost/meta_must_reject": 0.1, "TestF3Raw/meta_must_reject": 0.1,
         "TestF4HTTPJSON/meta_must_reject": 0.05, "TestF5GrpcJSON/meta_must_reject": 0.1,
+        # classes added after seeded defect C13/m5 (garbage after a JSON array that begins with a closing bracket / brace)
+        "TestF4HTTPJSON/meta_garbage_structural": 0.08, "TestF5GrpcJSON/meta_garbage_structural": 0.08,
+        "TestF4HTTPJSON/meta_garbage_glued_after_array": 0.015, "TestF4HTTPJSON/meta_garbage_glued_after_lines": 0.02,
+        "TestF4HTTPJSON/meta_garbage_first_close_bracket_after_array": 0.002, "TestF4HTTPJSON/meta_garbage_first_close_brace_after_array": 0.002,
+        "TestF4HTTPJSON/meta_garbage_first_comma_after_array": 0.0015, "TestF4HTTPJSON/meta_garbage_first_colon_after_array": 0.0015,
         "TestF2Uripost/op_digits": 0.1, "TestF3Raw/op_digits": 0.1, "TestF1Uri/preload": 0.3, "TestF5GrpcJSON/continue_on_error": 0.3,
         "TestF6Scenario/syntax_hcl": 0.2, "TestF6Scenario/kind_grpc": 0.2, "TestF6Scenario/must_reject_rejected": 0.1,
         "TestF6Scenario/accepted": 0.1, "TestF6Scenario/rejected_at_construction": 0.2,
@@ -63,6 +75,10 @@ SPEC = {
         "TestF8Parsers/index_into_empty_array": 0.02, "TestF8Parsers/target_xpath": 0.08, "TestF8Parsers/target_header": 0.08,
         "TestF8Parsers/func_ok": 0.02, "TestF8Parsers/func_error": 0.02,
     },
+    "required_classes": (["TestF4HTTPJSON/meta_garbage_first_%s_after_%s" % (f, l) for f in _FIRST for l in ("array", "lines", "pretty")]
+                         + ["TestF5GrpcJSON/meta_garbage_first_" + f for f in _FIRST]
+                         + ["TestF4HTTPJSON/meta_garbage_glue_" + g for g in ("none", "space", "tab", "newline", "crlf", "blank_lines")]
+                         + ["TestF4HTTPJSON/meta_garbage_on_fresh_line"]),
     "manifest": {
         "technique": ("mutation-based property testing (rapid) of every input decoder with a no-crash / no-hang / bounded-allocation oracle plus "
                       "metamorphic valid-prefix and must-reject relations; the same oracles run inside native Go fuzz targets (thorough tier)"),
